@@ -5,8 +5,56 @@
 package netsim
 
 import (
+	"fmt"
+	"runtime/debug"
+	"strings"
+	"testing"
+
 	"verifsim/simcore"
+	"verifsim/simsched"
 )
+
+// runBubble runs f in a synctest bubble. A panic on the bubble's main goroutine is
+// carried out of the bubble: harness trouble is re-raised as such, anything else
+// (the code under test panicked) becomes a violation of class "panic".
+func runBubble(t *testing.T, f func()) (deadlock string, v *simcore.Violation) {
+	var pv any
+	var stack string
+	deadlock = simsched.Bubble(t, func() {
+		defer func() {
+			if r := recover(); r != nil {
+				pv, stack = r, string(debug.Stack())
+			}
+		}()
+		f()
+	})
+	if pv == nil {
+		return deadlock, nil
+	}
+	if hp, ok := pv.(simcore.HarnessPanic); ok {
+		panic(hp)
+	}
+	site := "unknown"
+	seen := false
+	for _, l := range strings.Split(stack, "\n") {
+		if strings.HasPrefix(l, "panic(") {
+			seen = true
+			continue
+		}
+		if seen && strings.Contains(l, "go-ethereum") && !strings.HasPrefix(l, "\t") {
+			site = l
+			if i := strings.LastIndex(l, "("); i > 0 {
+				site = l[:i]
+			}
+			break
+		}
+	}
+	lines := strings.Split(stack, "\n")
+	if len(lines) > 40 {
+		lines = lines[:40]
+	}
+	return "", &simcore.Violation{Oracle: "panic", Key: "panic:" + site, Msg: fmt.Sprintf("%v\n%s", pv, strings.Join(lines, "\n"))}
+}
 
 func Checks() map[string]*simcore.Check {
 	return map[string]*simcore.Check{
@@ -23,6 +71,20 @@ func Checks() map[string]*simcore.Check {
 			Runs: map[string]int{"quick": 16000, "thorough": 600000},
 			Gen:  Gen44, Decode: Decode44, Run: Run44, Shrink: Shrink44,
 			ProbeNames: []string{"handshake-ok", "all-delivered", "error-at-fault", "short-reads", "handshake-failed-after-fault", "forged-peer-1", "forged-peer-2", "forged-peer-control-accepted", "stall-timeout-observed"},
+		},
+		"C45": {
+			ID: "C45", Engine: "netsim", Level: "exploration",
+			Rule: "plan = 2-3 node keys, crypto seed, 8-60 operations: send / exchange (send + clean delivery chain) of any of the six message types, deliver an in-flight packet (ok, duplicate, drop, flip a byte in a chosen region, cut, extend, deliver to another node, deliver from another address), replay any earlier packet, reset a node's codec (sessions and challenges lost), advance the shared clock (7 ms .. 5 s), bump a node's record, answer a challenge with a hand-written handshake packet carrying a record with a chosen defect, differential probes of record decoding with chosen mutations; then faults stop and one PING per direction must get through. Non-trivial = at least one fault kind fired; distinct = distinct hashes of (all wire packets, all decode verdicts).",
+			Assumptions: []string{
+				"the harness plays the part of UDPv5 around the codec (call table keyed by nonce, one handshake per call, WHOAREYOU repeated while a challenge is outstanding, calls time out after 700 ms); matching a WHOAREYOU to a sent packet is therefore harness code, not code under test",
+				"in-session duplicates are legal in discv5 (no replay window inside a session): the oracle requires them to decode to the same message",
+				"a session id model (who holds the keys of which handshake) predicts decodability; it is cross-checked against Codec.SessionNode and stops the run with exit 2 on drift",
+			},
+			Components: simcore.Components{Real: []string{"p2p/discover/v5wire.Codec (Encode, Decode, SessionCache, handshake, key derivation, AES-GCM, masking)", "p2p/enode.LocalNode / enode.New / V4ID", "p2p/enr.Record decoding", "rlp"},
+				Stub: []string{"UDP socket and UDPv5 call handling (harness)", "clock (mclock.Simulated)", "hand-written handshake sender (independent implementation of the wire spec)", "reference record validator"}},
+			Runs: map[string]int{"quick": 40000, "thorough": 1500000},
+			Gen:  Gen45, Decode: Decode45, Run: Run45, Shrink: Shrink45,
+			ProbeNames: []string{"handshake-accepted", "handshake-record-accepted", "in-session-decode", "in-session-duplicate-decoded", "challenge-repeated", "challenge-without-call", "forged-valid-handshake-accepted", "liveness-ping-delivered", "record-accepted", "record-probe-size300", "record-probe-size301"},
 		},
 	}
 }
